@@ -317,3 +317,117 @@ func ruleLISTRECURSION(c *Ctx) {
 		c.add(rule, "count:", token.NoPos, CountDropped, true, "only %d recursive list rules under `if rr` found in syntax.Expand (6 confirmed by hand: separator, reference, choice and generic element, each in both directions)", n)
 	}
 }
+
+// DTX(nullable): isNullable is the decision table of "can this expression derive the empty
+// string": Empty, Optional, state markers, commands and lookaheads can; sets, (unexpected)
+// conditionals and negative lookaheads cannot; a `*` list can, a `+` list and the transparent
+// wrappers Assign/Append/Arrow/Prec are as nullable as their operand; a Choice is nullable iff
+// some alternative is (an empty Choice is), a Sequence iff all parts are; a Reference iff the
+// symbol is in the nullable set. The function is evaluated for every kind and every valuation
+// of (up to two) operands; first/last/follow/precede sets and lookahead propagation are built on it.
+func ruleNULLABLEDTX(c *Ctx) {
+	const rule = "DTX(nullable)"
+	f := c.SSAFunc("syntax", "isNullable")
+	if f == nil || len(f.Params) != 2 {
+		c.Lost(rule, "syntax.isNullable", "function not found")
+		return
+	}
+	kinds := map[string]int64{}
+	for _, n := range []string{"Empty", "Optional", "StateMarker", "Command", "Lookahead", "Set", "List", "Assign", "Append", "Arrow", "Prec", "Choice", "Sequence", "Reference", "Conditional", "LookaheadNot"} {
+		v, ok := c.enumConst("syntax", n)
+		if !ok {
+			c.Lost(rule, "syntax."+n, "ExprKind constant not found")
+			return
+		}
+		kinds[n] = v
+	}
+	oneOrMore, ok := c.enumConst("syntax", "OneOrMore")
+	if !ok {
+		c.Lost(rule, "syntax.OneOrMore", "constant not found")
+		return
+	}
+	eval := func(kind string, subs []bool, flags int64, inSet bool) (string, bool) {
+		cfg := &aiConfig{
+			Load: func(path string, t types.Type) (AV, bool) {
+				switch path {
+				case "expr.Kind":
+					return avInt{kinds[kind], kinds[kind]}, true
+				case "expr.Sub":
+					return avSym{Name: "expr.Sub", Len: avInt{int64(len(subs)), int64(len(subs))}}, true
+				case "expr.ListFlags":
+					return avInt{flags, flags}, true
+				}
+				return nil, false
+			},
+			Call: func(callee string, args []AV, site ssa.CallInstruction) (AV, bool, bool) {
+				switch {
+				case callee == "syntax.isNullable" && len(args) == 2:
+					a := avStr2(args[0])
+					for i, b := range subs {
+						if a == fmt.Sprintf("expr.Sub[%d]", i) {
+							return avBool{b}, true, false
+						}
+					}
+					return nil, false, false
+				case strings.HasSuffix(callee, "BitSet.Get"):
+					return avBool{inSet}, true, false
+				}
+				return nil, false, false
+			},
+		}
+		outs := aiEval(f, []AV{avSym{Name: "expr"}, avSym{Name: "nullable"}}, cfg)
+		seen := map[string]bool{}
+		for _, o := range outs {
+			if o.Kind != "return" || len(o.Ret) != 1 {
+				return o.String(), false
+			}
+			seen[avStr2(o.Ret[0])] = true
+		}
+		if len(seen) == 1 {
+			for k := range seen {
+				return k, true
+			}
+		}
+		return fmt.Sprint(keysOf(seen)), false
+	}
+	check := func(key string, got string, ok bool, want bool) {
+		key = "syntax.isNullable[" + key + "]"
+		if ok && got == fmt.Sprint(want) {
+			c.Ok(rule, key, f.Pos(), "= %v", want)
+		} else if ok {
+			c.Bad(rule, key, f.Pos(), "isNullable must be %v here; the code yields %s: nullable symbols are the base of first/last/follow/precede sets and of lookahead-flag propagation", want, got)
+		} else {
+			c.Undec(rule, key, f.Pos(), "not decided: %s", got)
+		}
+	}
+	for _, k := range []string{"Empty", "Optional", "StateMarker", "Command", "Lookahead"} {
+		g, ok := eval(k, []bool{false}, 0, false)
+		check(k, g, ok, true)
+	}
+	for _, k := range []string{"Set", "Conditional", "LookaheadNot"} {
+		g, ok := eval(k, []bool{true}, 0, true)
+		check(k, g, ok, false)
+	}
+	for _, b := range []bool{false, true} {
+		for _, k := range []string{"Assign", "Append", "Arrow", "Prec"} {
+			g, ok := eval(k, []bool{b}, 0, false)
+			check(fmt.Sprintf("%s(%v)", k, b), g, ok, b)
+		}
+		g, ok := eval("List", []bool{b}, oneOrMore, false)
+		check(fmt.Sprintf("List+(%v)", b), g, ok, b)
+		g, ok = eval("List", []bool{b}, 0, false)
+		check(fmt.Sprintf("List*(%v)", b), g, ok, true)
+		g, ok = eval("Reference", nil, 0, b)
+		check(fmt.Sprintf("Reference(inSet=%v)", b), g, ok, b)
+	}
+	for _, bs := range [][]bool{{false, false}, {false, true}, {true, false}, {true, true}} {
+		g, ok := eval("Choice", bs, 0, false)
+		check(fmt.Sprintf("Choice(%v,%v)", bs[0], bs[1]), g, ok, bs[0] || bs[1])
+		g, ok = eval("Sequence", bs, 0, false)
+		check(fmt.Sprintf("Sequence(%v,%v)", bs[0], bs[1]), g, ok, bs[0] && bs[1])
+	}
+	g, ok2 := eval("Choice", nil, 0, false)
+	check("Choice()", g, ok2, true)
+	g, ok2 = eval("Sequence", nil, 0, false)
+	check("Sequence()", g, ok2, true)
+}
